@@ -88,7 +88,7 @@ def main():
         res["detected_with_failing_input"] = res["detected"] and any(
             l.startswith("VIOLATION") and "no-failing-input-found" not in l for l in res["check_lines"])
         # keep replays of this evaluation next to the seed
-        rp = os.path.join(VERIF, "replays", pid)
+        rp = os.path.join(VERIF, "build", "mut", "replays", pid)
         dst = os.path.join(VERIF, "seeded", sid)
         os.makedirs(dst, exist_ok=True)
         if os.path.isdir(rp):
